@@ -358,7 +358,15 @@ void vfps::HDF5File::addParameterToGroup(std::string groupname,
 void vfps::HDF5File::append(const ElectricField* ef, const bool fullspectrum)
 {
     if (fullspectrum) {
-        _appendData(_csrSpectrum,ef->getCSRSpectrum());
+        /* The field holds getNMax() values per bunch, the dataset the first
+         * half of them (non-negative frequencies): pack the rows. */
+        const auto nmax = ef->getNMax();
+        std::vector<csrpower_t> spectrum(static_cast<size_t>(_nBunches)*_maxn);
+        for (uint32_t b=0; b<_nBunches; b++) {
+            std::copy_n( ef->getCSRSpectrum()+b*nmax, _maxn
+                       , spectrum.data()+static_cast<size_t>(b)*_maxn);
+        }
+        _appendData(_csrSpectrum,spectrum.data());
     }
     _appendData(_csrIntensity,ef->getCSRPower());
 }
